@@ -18,7 +18,7 @@
 #define NOSAN __attribute__((no_sanitize_thread, noinline))
 
 #define NKEYS 8                    /* keys 1..7 */
-#define NVAR  2
+#define NVAR  3
 typedef struct { parsec_hash_table_item_t hi; int id; } elt_t;
 static elt_t elts[NKEYS][NVAR];
 static uint64_t hv[NKEYS];         /* 64-bit hash of key k */
@@ -217,7 +217,7 @@ static void check_quiescent(void)
         CS_CHECK(cnt[i] == present[i], "for_all visited element %d (key %d) %d time(s), it is stored %d time(s)", i, i / NVAR, cnt[i], present[i]);
     /* linearizability of the concurrent history, ending in exactly this content */
     char buf[600]; int o = 0;
-    for (int k = 0; k < nops; k++) o += snprintf(buf + o, sizeof(buf) - o, "%s(%d%s)=%d ", opn[ops[k].type], ops[k].key, ops[k].type == OP_FOI ? (ops[k].var ? "b" : "a") : "", ops[k].res);
+    for (int k = 0; k < nops; k++) o += snprintf(buf + o, sizeof(buf) - o, "%s(%d%s)=%d ", opn[ops[k].type], ops[k].key, ops[k].type == OP_FOI ? (ops[k].var == 0 ? "a" : ops[k].var == 1 ? "b" : "c") : "", ops[k].res);
     o += snprintf(buf + o, sizeof(buf) - o, "| final:");
     for (int k = 1; k < NKEYS; k++) if (final_map[k] >= 0) o += snprintf(buf + o, sizeof(buf) - o, " %d@%d", final_map[k], where[final_map[k]]);
     o += snprintf(buf + o, sizeof(buf) - o, " | tables %s", lay);
@@ -266,6 +266,219 @@ static void run_def(const sdef_t *d)
     check_quiescent();
 }
 
+
+/* ==================================================================================================================
+ * Generated (bounded-exhaustive) script families.
+ *
+ *   script  =  pre-state P (sequential prefix through the real API)  x  T0: a ops || T1: b ops (|| T2: c ops)
+ *   op      =  {i(nsert), f(ind), r(emove), o = find-or-insert under lock_bucket}  x  key in a tiny domain
+ *
+ * The key domain is chosen so that operations collide: all keys share THE bucket of the 1-bit table; 1 and 2 are split
+ * by the first resize, 2 and 7 never split (distinct hashes), 1 and 5 never split and have the SAME 64-bit hash,
+ * 1 and 3 are split by the second resize only.
+ * Family = ALL scripts of a shape over the alphabet, minus (1) scripts that violate the usage contract (insert of a key
+ * that may be present), minus (2) scripts that cannot collide (see relevance()), up to (3) symmetry (renaming of threads
+ * of equal length; renaming 2 <-> 7 where the pre-state mentions neither). Deterministic order, simplest first.
+ *
+ * Text of a script (= its scenario name, stored in the replay file): g.P<n>.<t0>.<t1>[.<t2>]  with  <t> = op-op-..., op = <letter><key>
+ *   e.g. g.P1.i7.i1-f2       The text alone rebuilds the script (parse_script), so a replay file is self-contained.
+ * Selection: C32_GEN="shape=2,1;keys=127;ops=ifro;pre=01234;void=0;range=lo:hi"
+ * ================================================================================================================== */
+#define NPRE 7
+static const struct { int n; sop_t s[5]; const char *what; } pres[NPRE] = {
+    /* P0 */ { 0, { {0,0,0} }, "empty 1-bit table" },
+    /* P1 */ { 1, { I(2) }, "{2} in the 1-bit table: the next insert overflows the bucket and resizes" },
+    /* P2 */ { 2, { I(2), I(1) }, "resized: 2-bit table empty, 1 and 2 chained in the bucket of the old 1-bit table" },
+    /* P3 */ { 3, { I(2), I(1), F(1) }, "resized, 1 migrated to the 2-bit table, 2 still in the old table" },
+    /* P4 */ { 4, { I(2), I(1), I(7), FO(2, 0) }, "three generations: 3-bit table empty, 2-bit table holds 2 and 7 in one bucket, 1-bit table holds 1" },
+    /* P5 */ { 1, { I(1) }, "{1} in the 1-bit table" },
+    /* P6 */ { 3, { I(2), I(1), F(2) }, "resized, 2 migrated to the 2-bit table, 1 still in the old table" },
+};
+static const char opl[] = "ifro";
+
+typedef struct { sdef_t d; char name[96]; } gdef_t;
+static gdef_t *gdefs; static int ngdefs, capgdefs;
+static long gen_raw, gen_contract, gen_relevant;      /* family counters: all / after the contract filter / after the relevance filter; ngen_all = after symmetry */
+
+static void script_name(const sdef_t *d, int pre, char *out, size_t n)
+{
+    int o = snprintf(out, n, "g.P%d", pre);
+    for (int t = 0; t < d->nthr; t++)
+        for (int j = 0; j < d->len[t]; j++) o += snprintf(out + o, n - o, "%c%c%d", j ? '-' : '.', opl[d->s[t][j].type], d->s[t][j].key);
+}
+
+/* rebuild a script from its text; returns 0 on success */
+static int parse_script(const char *txt, gdef_t *g)
+{
+    memset(g, 0, sizeof(*g));
+    if (strncmp(txt, "g.P", 3) || strlen(txt) >= sizeof(g->name)) return -1;
+    const char *q = txt + 3; int pre = 0;
+    if (*q < '0' || *q > '9') return -1;
+    while (*q >= '0' && *q <= '9') pre = pre * 10 + (*q++ - '0');
+    if (pre >= NPRE) return -1;
+    g->d.npre = pres[pre].n; memcpy(g->d.pre, pres[pre].s, sizeof(pres[pre].s));
+    int t = -1;
+    while (*q) {
+        if (*q == '.') { if (++t >= 3) return -1; q++; }
+        else if (*q == '-') { if (t < 0) return -1; q++; }
+        else return -1;
+        const char *l = strchr(opl, *q); if (!l || !*q) return -1;
+        int key = q[1] - '0'; if (key < 1 || key >= NKEYS) return -1;
+        if (t < 0 || g->d.len[t] >= 4) return -1;
+        sop_t so = { (int)(l - opl), key, (l - opl) == OP_FOI ? t : 0 };
+        g->d.s[t][g->d.len[t]++] = so; q += 2;
+    }
+    if (t < 1) return -1;
+    g->d.nthr = t + 1;
+    strcpy(g->name, txt); g->d.name = g->name;
+    return 0;
+}
+
+static int key_in_pre(int pre, int key)
+{
+    int present = 0;
+    for (int i = 0; i < pres[pre].n; i++) if (pres[pre].s[i].key == key) { if (pres[pre].s[i].type == OP_INS || pres[pre].s[i].type == OP_FOI) present = 1; if (pres[pre].s[i].type == OP_REM) present = 0; }
+    return present;
+}
+static int pre_mentions(int pre, int key) { for (int i = 0; i < pres[pre].n; i++) if (pres[pre].s[i].key == key) return 1; return 0; }
+
+/* (1) usage contract: parsec_hash_table_insert / nolock_insert must not be called for a key that is present (the table keeps duplicates
+ * silently; the property speaks of a map with unique keys). insert(k) is generated only where k is DEFINITELY absent in every interleaving:
+ * no other thread may insert k (i or o), and in the own thread's program order k is absent (not in P or removed by the thread itself, and
+ * not re-inserted since; an own insert followed by a foreign remove leaves k "unknown", which is not good enough). */
+static int contract_ok(const sdef_t *d, int pre)
+{
+    for (int t = 0; t < d->nthr; t++) for (int j = 0; j < d->len[t]; j++) {
+        if (d->s[t][j].type != OP_INS) continue;
+        int k = d->s[t][j].key, others_rem = 0;
+        for (int u = 0; u < d->nthr; u++) if (u != t) for (int i = 0; i < d->len[u]; i++) if (d->s[u][i].key == k) {
+            if (d->s[u][i].type == OP_INS || d->s[u][i].type == OP_FOI) return 0;
+            if (d->s[u][i].type == OP_REM) others_rem = 1;
+        }
+        enum { A, P, U } st = key_in_pre(pre, k) ? (others_rem ? U : P) : A;
+        for (int i = 0; i < j; i++) if (d->s[t][i].key == k) {
+            if (d->s[t][i].type == OP_INS || d->s[t][i].type == OP_FOI) st = others_rem ? U : P;
+            else if (d->s[t][i].type == OP_REM) st = A;
+        }
+        if (st != A) return 0;
+    }
+    return 1;
+}
+
+/* (2) relevance: a find/remove of a key that is in no pre-state and that nobody inserts ("void" operation) can only answer NULL; scripts
+ * containing one are generated only with void=1 (thorough). A script whose operations are all finds on a single-table pre-state reads only. */
+static int relevant(const sdef_t *d, int pre, int allow_void)
+{
+    int mut = 0;
+    for (int t = 0; t < d->nthr; t++) for (int j = 0; j < d->len[t]; j++) {
+        const sop_t *o = &d->s[t][j];
+        if (o->type != OP_FIND) mut = 1;
+        if ((o->type == OP_FIND || o->type == OP_REM) && !allow_void && !key_in_pre(pre, o->key)) {
+            int ins = 0;
+            for (int u = 0; u < d->nthr; u++) for (int i = 0; i < d->len[u]; i++) if (d->s[u][i].key == o->key && (d->s[u][i].type == OP_INS || d->s[u][i].type == OP_FOI)) ins = 1;
+            if (!ins) return 0;
+        }
+    }
+    if (!mut && pres[pre].n <= 1) return 0;
+    return 1;
+}
+
+/* (3) symmetry: threads are interchangeable (the element a thread brings for 'o' is named after the thread, nothing else depends on the
+ * thread index); keys 2 and 7 are interchangeable when the pre-state mentions neither (same bucket at every level, distinct hashes, both
+ * distinct from every other hash). A script is kept iff its text is the smallest of its orbit. */
+static void enc(const sdef_t *d, const int *perm, int swap27, char *out)
+{
+    int o = 0;
+    for (int t = 0; t < d->nthr; t++) {
+        int u = perm[t];
+        for (int j = 0; j < d->len[u]; j++) { int k = d->s[u][j].key; if (swap27) k = k == 2 ? 7 : k == 7 ? 2 : k; out[o++] = (char)('0' + d->s[u][j].type); out[o++] = (char)('0' + k); }
+        out[o++] = '.';
+    }
+    out[o] = 0;
+}
+static int canonical(const sdef_t *d, int pre)
+{
+    static const int perms[6][3] = { {0,1,2}, {1,0,2}, {0,2,1}, {2,1,0}, {1,2,0}, {2,0,1} };
+    char me[64], other[64]; enc(d, perms[0], 0, me);
+    int can27 = !pre_mentions(pre, 2) && !pre_mentions(pre, 7);
+    for (int p = 0; p < 6; p++) {
+        int ok = 1;
+        for (int t = 0; t < 3; t++) { if (perms[p][t] != t && (t >= d->nthr || perms[p][t] >= d->nthr)) ok = 0; if (ok && t < d->nthr && d->len[perms[p][t]] != d->len[t]) ok = 0; }
+        if (!ok) continue;
+        for (int sw = 0; sw <= can27; sw++) { enc(d, perms[p], sw, other); if (strcmp(other, me) < 0) return 0; }
+    }
+    return 1;
+}
+
+static void gen_family(const char *spec, int list_only)
+{
+    int shape[3] = {1, 1, 0}, nthr = 2, keys[NKEYS], nkeys = 0, types[4], ntypes = 0, prel[NPRE], npre = 0, allow_void = 0; long lo = 0, hi = -1;
+    char buf[256]; snprintf(buf, sizeof(buf), "%s", spec);
+    for (char *tok = strtok(buf, ";"); tok; tok = strtok(NULL, ";")) {
+        if (!strncmp(tok, "shape=", 6)) { nthr = sscanf(tok + 6, "%d,%d,%d", &shape[0], &shape[1], &shape[2]); }
+        else if (!strncmp(tok, "keys=", 5)) { for (char *c = tok + 5; *c; c++) if (*c >= '1' && *c < '0' + NKEYS && nkeys < NKEYS) keys[nkeys++] = *c - '0'; }
+        else if (!strncmp(tok, "ops=", 4)) { for (char *c = tok + 4; *c; c++) { const char *l = strchr(opl, *c); if (l && ntypes < 4) types[ntypes++] = (int)(l - opl); } }
+        else if (!strncmp(tok, "pre=", 4)) { for (char *c = tok + 4; *c; c++) if (*c >= '0' && *c < '0' + NPRE && npre < NPRE) prel[npre++] = *c - '0'; }
+        else if (!strncmp(tok, "void=", 5)) allow_void = atoi(tok + 5);
+        else if (!strncmp(tok, "range=", 6)) sscanf(tok + 6, "%ld:%ld", &lo, &hi);
+        else { fprintf(stderr, "C32: bad C32_GEN token '%s'\n", tok); exit(2); }
+    }
+    if (nthr < 2 || nthr > 3 || !nkeys || !ntypes || !npre) { fprintf(stderr, "C32: incomplete C32_GEN '%s'\n", spec); exit(2); }
+    int total = 0; for (int t = 0; t < nthr; t++) { if (shape[t] < 1 || shape[t] > 4) { fprintf(stderr, "C32: bad shape\n"); exit(2); } total += shape[t]; }
+    if (total > 6) { fprintf(stderr, "C32: shape too large\n"); exit(2); }
+    int na = nkeys * ntypes; long ncomb = 1; for (int i = 0; i < total; i++) ncomb *= na;
+    long idx = 0;          /* index in the family (after all filters) */
+    for (int pi = 0; pi < npre; pi++) {
+        int pre = prel[pi];
+        for (long c = 0; c < ncomb; c++) {
+            sdef_t d; memset(&d, 0, sizeof(d));
+            d.npre = pres[pre].n; memcpy(d.pre, pres[pre].s, sizeof(pres[pre].s)); d.nthr = nthr;
+            long r = c;
+            /* the LAST operation varies fastest, types before keys: scripts on the first key / with inserts come first */
+            int dig[6]; for (int i = total - 1; i >= 0; i--) { dig[i] = (int)(r % na); r /= na; }
+            int q = 0;
+            for (int t = 0; t < nthr; t++) { d.len[t] = shape[t]; for (int j = 0; j < shape[t]; j++, q++) { int ty = types[dig[q] % ntypes]; sop_t so = { ty, keys[dig[q] / ntypes], ty == OP_FOI ? t : 0 }; d.s[t][j] = so; } }
+            gen_raw++;
+            if (!contract_ok(&d, pre)) continue;
+            gen_contract++;
+            if (!relevant(&d, pre, allow_void)) continue;
+            gen_relevant++;
+            if (!canonical(&d, pre)) continue;
+            long me = idx++;
+            if (me < lo || (hi >= 0 && me >= hi)) continue;
+            if (ngdefs == capgdefs) { capgdefs = capgdefs ? 2 * capgdefs : 256; gdefs = realloc(gdefs, capgdefs * sizeof(gdef_t)); }
+            gdef_t *g = &gdefs[ngdefs++]; memset(g, 0, sizeof(*g)); g->d = d;
+            script_name(&d, pre, g->name, sizeof(g->name));
+        }
+    }
+    for (int i = 0; i < ngdefs; i++) gdefs[i].d.name = gdefs[i].name;      /* after the last realloc */
+    if (list_only) {
+        printf("{\"spec\":\"%s\",\"alphabet\":%d,\"generated\":%ld,\"after_contract\":%ld,\"after_relevance\":%ld,\"after_symmetry\":%ld,\"scripts\":[", spec, na, gen_raw, gen_contract, gen_relevant, idx);
+        for (int i = 0; i < ngdefs; i++) printf("%s\"%s\"", i ? "," : "", gdefs[i].name);
+        printf("]}\n");
+    }
+}
+
+/* cosched scenarios carry a parameterless run(): one trampoline per slot of gdefs[] */
+#define MAXGEN 4096
+#define G1(h)   static void gr_##h(void) { run_def(&gdefs[0x##h].d); }
+#define G16(h)  G1(h##0) G1(h##1) G1(h##2) G1(h##3) G1(h##4) G1(h##5) G1(h##6) G1(h##7) G1(h##8) G1(h##9) G1(h##a) G1(h##b) G1(h##c) G1(h##d) G1(h##e) G1(h##f)
+#define G256(h) G16(h##0) G16(h##1) G16(h##2) G16(h##3) G16(h##4) G16(h##5) G16(h##6) G16(h##7) G16(h##8) G16(h##9) G16(h##a) G16(h##b) G16(h##c) G16(h##d) G16(h##e) G16(h##f)
+G256(0) G256(1) G256(2) G256(3) G256(4) G256(5) G256(6) G256(7) G256(8) G256(9) G256(a) G256(b) G256(c) G256(d) G256(e) G256(f)
+#define A1(h)   gr_##h,
+#define A16(h)  A1(h##0) A1(h##1) A1(h##2) A1(h##3) A1(h##4) A1(h##5) A1(h##6) A1(h##7) A1(h##8) A1(h##9) A1(h##a) A1(h##b) A1(h##c) A1(h##d) A1(h##e) A1(h##f)
+#define A256(h) A16(h##0) A16(h##1) A16(h##2) A16(h##3) A16(h##4) A16(h##5) A16(h##6) A16(h##7) A16(h##8) A16(h##9) A16(h##a) A16(h##b) A16(h##c) A16(h##d) A16(h##e) A16(h##f)
+static void (*const gtramp[MAXGEN])(void) = { A256(0) A256(1) A256(2) A256(3) A256(4) A256(5) A256(6) A256(7) A256(8) A256(9) A256(a) A256(b) A256(c) A256(d) A256(e) A256(f) };
+
+static int gen_main(int argc, char **argv)
+{
+    if (ngdefs > MAXGEN) { fprintf(stderr, "C32: %d generated scripts in one invocation (max %d): use range=\n", ngdefs, MAXGEN); return 2; }
+    if (ngdefs == 0) { fprintf(stderr, "C32: the selection holds no script\n"); return 2; }
+    cs_scenario_t *sc = calloc(ngdefs, sizeof(*sc));
+    for (int i = 0; i < ngdefs; i++) { sc[i].name = gdefs[i].name; sc[i].run = gtramp[i]; sc[i].max_bound = 0; }
+    return cs_main(argc, argv, "C32", sc, ngdefs, setup);
+}
+
 #define RUNFN(i) static void run_##i(void) { run_def(&defs[i]); }
 RUNFN(0) RUNFN(1) RUNFN(2) RUNFN(3) RUNFN(4) RUNFN(5) RUNFN(6) RUNFN(7) RUNFN(8) RUNFN(9) RUNFN(10) RUNFN(11)
 static cs_scenario_t scenarios[] = {
@@ -277,6 +490,23 @@ static cs_scenario_t scenarios[] = {
 int main(int argc, char **argv)
 {
     if (NDEFS != (int)(sizeof(scenarios) / sizeof(scenarios[0]))) return 2;
+    /* generated families: C32_GEN=<spec> explores (a range of) a family; --gen-list prints it; a replay file of a generated script
+     * carries the script text as its scenario name, from which the script is rebuilt */
+    for (int i = 1; i < argc; i++) {
+        if (!strcmp(argv[i], "--gen-list")) { const char *g = getenv("C32_GEN"); if (!g) return 2; gen_family(g, 1); return 0; }
+        if (!strcmp(argv[i], "--replay") && i + 1 < argc) {
+            FILE *f = fopen(argv[i + 1], "r"); char buf[4096]; size_t n = f ? fread(buf, 1, sizeof(buf) - 1, f) : 0; if (f) fclose(f); buf[n] = 0;
+            char *q = strstr(buf, "\"scenario\":\"g.");
+            if (q) {
+                q += 12; char *e = strchr(q, '"'); if (!e) return 2; *e = 0;
+                gdefs = calloc(1, sizeof(gdef_t)); ngdefs = 1;
+                if (parse_script(q, &gdefs[0])) { fprintf(stderr, "C32: cannot parse the script text '%s'\n", q); return 2; }
+                printf("generated script %s (rebuilt from the scenario text of the replay file)\n", q);
+                return gen_main(argc, argv);
+            }
+        }
+    }
+    if (getenv("C32_GEN") && *getenv("C32_GEN")) { gen_family(getenv("C32_GEN"), 0); return gen_main(argc, argv); }
     /* C32_SET=name,name,... restricts the run to a subset (check.py explores groups at different bounds); replay sees all */
     const char *set = getenv("C32_SET"); int n = NDEFS;
     if (set && *set) {
